@@ -22,6 +22,44 @@ var lengths = func() []int {
 	return append(l, 127, 128, 129, 255, 256, 257, 1000, 4095, 4096, 4097, 65539)
 }()
 
+// largeLengths straddle the bytes pool's top size class (64 KiB) and its
+// multiples, where an implementation may switch to piecewise processing.
+var largeLengths = []int{65535, 65536, 65537, 65539, 70001, 131070, 131071, 131072, 131073, 196607, 196609, 200003, 262144, 262147}
+
+// pickLen draws a payload length: mostly the small table, one case in eight a
+// large one handed over in few big calls.
+func pickLen(c *mon.C) (n int, large bool) {
+	if c.Rng.Intn(8) == 0 {
+		n = largeLengths[c.Rng.Intn(len(largeLengths))]
+		if c.Rng.Intn(3) == 0 {
+			n += c.Rng.Intn(9) - 4
+		}
+		return n, true
+	}
+	return lengths[c.Rng.Intn(len(lengths)-1)], false
+}
+
+// bigPartition splits n into a few large parts (often a single one).
+func bigPartition(c *mon.C, n int) []int {
+	var parts []int
+	switch c.Rng.Intn(4) {
+	case 0:
+		return []int{n}
+	case 1:
+		k := c.Rng.Intn(8)
+		return []int{k, n - k}
+	}
+	for n > 0 {
+		k := 1 + c.Rng.Intn(n)
+		if c.Rng.Intn(3) == 0 && k > 70000 {
+			k = 65530 + c.Rng.Intn(12)
+		}
+		parts = append(parts, k)
+		n -= k
+	}
+	return parts
+}
+
 var offsets = []int{0, 1, 2, 3, 4, 5, 6, 7, 8, 9, 10, 11, 65537, 1<<31 + 2, 1<<40 + 3}
 
 const canary = 32
@@ -98,6 +136,8 @@ func lenClass(n int) string {
 		return "lt8"
 	case n < 24:
 		return "8-23"
+	case n >= 65530:
+		return "ge64K"
 	default:
 		return "ge24"
 	}
@@ -146,8 +186,8 @@ func subChunks() mon.Sub {
 			return 3000
 		},
 		Do: func(c *mon.C) {
-			n := lengths[c.Rng.Intn(len(lengths)-1)]
-			if c.Rng.Intn(4) == 0 {
+			n, large := pickLen(c)
+			if !large && c.Rng.Intn(4) == 0 {
 				n = c.Rng.Intn(3000)
 			}
 			src := make([]byte, n)
@@ -155,6 +195,9 @@ func subChunks() mon.Sub {
 			key := keyOf(c, 3)
 			off0 := offsets[c.Rng.Intn(len(offsets))]
 			parts := randomPartition(c, n)
+			if large {
+				parts = bigPartition(c, n)
+			}
 			got := append([]byte(nil), src...)
 			pos := 0
 			for _, k := range parts {
@@ -184,7 +227,7 @@ func subReader() mon.Sub {
 			return 2500
 		},
 		Do: func(c *mon.C) {
-			n := lengths[c.Rng.Intn(len(lengths)-1)]
+			n, large := pickLen(c)
 			src := make([]byte, n)
 			c.Rng.Read(src)
 			key := keyOf(c, 3)
@@ -192,6 +235,13 @@ func subReader() mon.Sub {
 			ps := xport.Plans(c.Rng.Int63(), nil)
 			plan := ps[c.Rng.Intn(len(ps))]
 			bs := bufSizes[c.Rng.Intn(len(bufSizes))]
+			if large {
+				// big caller buffers over a source that hands everything at once
+				bs = []int{65535, 65536, 65537, 100000, n, n + 1}[c.Rng.Intn(6)]
+				if c.Rng.Intn(2) == 0 {
+					plan = ps[0]
+				}
+			}
 			rd := wsutil.NewCipherReader(xport.NewChunker(masked, plan), key)
 			resetAt := -1
 			if c.Rng.Intn(3) == 0 && n > 0 {
@@ -239,12 +289,15 @@ func subWriter() mon.Sub {
 			return 2500
 		},
 		Do: func(c *mon.C) {
-			n := lengths[c.Rng.Intn(len(lengths)-1)]
+			n, large := pickLen(c)
 			src := make([]byte, n)
 			c.Rng.Read(src)
 			key := keyOf(c, 3)
 			rec := xport.NewRec()
 			parts := randomPartition(c, n)
+			if large {
+				parts = bigPartition(c, n)
+			}
 			short := c.Rng.Intn(3) == 0 && len(parts) > 0
 			if short {
 				rec.FailAt = c.Rng.Intn(len(parts))
